@@ -150,6 +150,48 @@ def nontrivial(c, r):
     return len(r.get("errors", [])) >= 1
 
 
+def e2e(rep, tier, seed):
+    """on real formatting runs: the report must be exactly the offending lines of the EMITTED text, with the
+    skipped ranges the formatter itself recorded"""
+    import hashlib
+    from . import pool
+    P = pool.load()
+    MOD = 8
+    grid = [("30", "2", "false"), ("60", "8", "true"), ("100", "4", "false")]
+    cases, meta = [], []
+    for p in P:
+        for gi, (w, ts, ht) in enumerate(grid):
+            if tier != "thorough" and int(hashlib.sha1(("%s|%d" % (p["id"], gi)).encode()).hexdigest()[:6], 16) % MOD != seed % MOD:
+                continue
+            over = [["max_width", w], ["tab_spaces", ts], ["hard_tabs", ht], ["error_on_line_overflow", "true"], ["error_on_unformatted", "true"]]
+            cases.append({"text": p["text"], "config": pool.merged(p["header"], over), "again": False, "lex": False, "entries": True})
+            meta.append((p["id"], w, ts, ht))
+    res = common.run_vh_pool("pool", cases, per_case_timeout=15)
+    found = n = nerr = 0
+    for (pid, w, ts, ht), c, r in zip(meta, cases, res):
+        if not isinstance(r, dict) or r.get("out") is None or r.get("entries") is None or r["flags"].get("parsing"):
+            continue
+        out = r["out"]
+        kinds = r.get("out_classes") or []
+        if len(kinds) != len(out):
+            continue
+        n += 1
+        errs = [[e[0], e[1], e[2], e[3], False, False] for e in r["entries"] if e[1] in (0, 1)]
+        nerr += len(errs)
+        pseudo_case = {"text": out, "config": c["config"], "skipped": [list(x) for x in r["skipped"]], "sel": None}
+        pseudo_res = {"classes": [[k, ord(ch)] for k, ch in zip(kinds, out)], "errors": errs,
+                      "flags": [r["flags"]["operational"], False, False, False, False, False, False]}
+        for key, what in oracle(pseudo_case, pseudo_res):
+            if rep.violation("e2e_%s:%s" % (key, pid), {"pool_id": pid, "config": c["config"], "input": c["text"], "out": out, "entries": r["entries"], "skipped": r["skipped"]},
+                             "%s [emitted text of %s, max_width %s tab_spaces %s hard_tabs %s]" % (what, pid, w, ts, ht)):
+                found += 1
+            break
+    rep.coverage["e2e_runs_judged"] = n
+    rep.coverage["e2e_diagnostics_seen"] = nerr
+    rep.coverage["e2e_rule"] = "pool programs x (max_width, tab_spaces, hard_tabs) in %s with both error options on (thorough: all; quick: the 1/%d slice selected by the seed): the LineOverflow / TrailingWhitespace entries of the real report must be exactly the offending lines of the emitted text outside the ranges the formatter recorded as not formatted" % (grid, MOD)
+    return found
+
+
 def run(tier, seed, replay):
     # the model needs the implementation's CharClasses stream: run the harness once to fetch it
     def gen(tier_, seed_):
@@ -171,6 +213,7 @@ def run(tier, seed, replay):
         imports="From V Require Import Base.Text C07.Model C07.Run.\nOpen Scope N_scope.",
         model_expr=model_expr, canon_model=canon_model, canon_impl=canon_impl, oracle=oracle,
         nontrivial=nontrivial,
+        extra=e2e,
         rule="seeded random texts of 1..8 lines built from code / long runs / tabs / trailing blanks (space, tab, U+00A0, U+3000) / line and block comments / strings spanning lines / CRLF, with 0..3 trailing newlines; max_width in {20,25,30,40,60,100}, tab_spaces 1..8, both error options on/off, random skipped ranges and line selections; non-trivial = at least one diagnostic; distinct by hash",
         per_file=100,
     )
